@@ -29,9 +29,9 @@ def gen(rng, tier):
     n = rng.choice([0, 1, 2, 2, 3, 4])
     chain = []
     for _ in range(n):
-        chain.append({"t": rng.choice(OPS), "name": rng.choice([None, None, None, "x%d" % rng.randrange(3)])})
+        chain.append({"t": rng.choice(OPS), "name": rng.choice([None, None, None, None, None, None, "x%d" % rng.randrange(3), "x%d" % rng.randrange(3), ""])})
     spec = {"chain": chain, "split": rng.randrange(n + 1), "base": rng.choice(["sync", "pool"]),
-            "base_name": rng.choice([None, "nm", "nm"]), "fn_kind": rng.choice(["function", "partial", "object", "function", "partial", "object", "bound"]),
+            "base_name": rng.choice([None, "nm", "nm", "nm", "nm", ""]), "fn_kind": rng.choice(["function", "partial", "object", "function", "partial", "object", "bound"]),
             "flat": rng.random() < 0.3, "fails": rng.choice([0, 0, 1, 2]), "args": [rng.randrange(10) for _ in range(rng.choice([0, 1, 2]))],
             "settle": 3.0, "fork": rng.random() < 0.4,
             # the base executor is shut down before the call: both forms must refuse (or accept) alike
@@ -43,12 +43,12 @@ def gen(rng, tier):
 
 def expected_names(spec):
     """Thread-name fragments each side must create: list of (prefix, name)."""
-    cur = spec["base_name"] or "default"
+    cur = spec["base_name"] if spec["base_name"] is not None else "default"
     out = []
     if spec["base"] == "pool":
         out.append(("ThreadPoolExecutor", spec["base_name"]))
     for L in spec["chain"]:
-        if L["name"]:
+        if L["name"] is not None:
             cur = L["name"]
         if L["t"] in THREAD_PREFIX:
             out.append((THREAD_PREFIX[L["t"]], cur))
@@ -87,7 +87,7 @@ def run(spec, env):
         return work, calls
 
     def apply(target, L):
-        kw = {"name": L["name"]} if L["name"] else {}
+        kw = {"name": L["name"]} if L["name"] is not None else {}
         t = L["t"]
         if t == "map":
             return target.with_map(lambda x: ("m", x), **kw)
@@ -107,7 +107,7 @@ def run(spec, env):
         return target.with_cancel_on_shutdown(**kw)
 
     def base():
-        kw = {"name": spec["base_name"]} if spec["base_name"] else {}
+        kw = {"name": spec["base_name"]} if spec["base_name"] is not None else {}
         return Executors.sync(**kw) if spec["base"] == "sync" else Executors.thread_pool(max_workers=1, **kw)
 
     def run_side(side):
@@ -258,6 +258,9 @@ def check(spec, env):
             # recognised by its class prefix when present, the given name must appear in it
             cands = [n for n in names if n.startswith(prefix)] or names
             ok = any(nm in n for n in cands)
+            if nm == "":
+                # the empty name: the layer's thread is "<Class>-" and nothing else (not "-default")
+                ok = any(n == prefix + "-" or n.startswith(prefix + "-_") or n.startswith(prefix + "-" + "_") for n in cands) if prefix != "ThreadPoolExecutor" else True
             if not ok:
                 out.append({"oracle": "names", "sig": "thread-name|%s|%s|%s" % (s, prefix, "bound" if s == "B" and spec["split"] < len(spec["chain"]) else "executor"),
                             "msg": "side %s: expected the name %r in the name of a %s thread, threads created: %r; chain %r base name %r split %d" % (s, nm, prefix, names, spec["chain"], spec["base_name"], spec["split"])})
